@@ -240,6 +240,7 @@ fn first_person_translate(az: f32, cx: f32, sz: f32, alt: f32) {
     assert!(((m.x() * sz - m.z() * cx).abs() - d[3].abs()).abs() <= tol);
     kani::cover!(d[5] > 100.0 && d[3] < -100.0, "forward and sideways");
 }
-#[cfg(feature = "cfg-libm")] #[kani::proof] #[kani::unwind(8)] fn c08_first_person_translate_level() { first_person_translate(0.125, 0.70710678, 0.70710678, 0.0); }
+#[cfg(feature = "cfg-libm")] #[kani::proof] #[kani::unwind(8)] fn c08_first_person_translate_level() { first_person_translate(0.5, -1.0, 0.0, 0.0); }
 #[cfg(feature = "cfg-libm")] #[kani::proof] #[kani::unwind(8)] fn c08_first_person_translate_up() { first_person_translate(0.25, 0.0, 1.0, 1.0 / 12.0); }
-#[cfg(feature = "cfg-libm")] #[kani::proof] #[kani::unwind(8)] fn c08_first_person_translate_down() { first_person_translate(-0.375, -0.70710678, -0.70710678, -1.0 / 6.0); }
+#[cfg(feature = "cfg-libm")] #[kani::proof] #[kani::unwind(8)] fn c08_first_person_translate_down() { first_person_translate(0.0, 1.0, 0.0, -1.0 / 6.0); }
+#[cfg(feature = "cfg-libm")] #[kani::proof] #[kani::unwind(8)] fn c08_first_person_translate_diagonal() { first_person_translate(0.125, 0.70710678, 0.70710678, 1.0 / 12.0); }
